@@ -251,9 +251,9 @@ def regenerate(repo=None):
 
 
 def regenerate_all(repo=None):
-  """every generated Lean file: scalar kernels, class table, validators, vector method bodies (vk/translate_vec.py), set-level glue (vk/translate_sets.py)."""
+  """every generated Lean file: scalar kernels, class table, validators, vector method bodies (vk/translate_vec.py), set-level glue (vk/translate_sets.py), loader helpers (vk/translate_loaders.py)."""
   out = regenerate(repo)
-  for modname in ('translate_classes', 'translate_validators', 'translate_vec', 'translate_sets'):
+  for modname in ('translate_classes', 'translate_validators', 'translate_vec', 'translate_sets', 'translate_loaders'):
     try:
       mod = __import__('vk.' + modname, fromlist=['regenerate'])
     except ImportError:
